@@ -2,7 +2,7 @@
    the model's own observations. *)
 From Coq Require Import List ZArith Bool Arith Lia Permutation.
 From Verif Require Import C07.Model C07.Spec C07.Proofs_Res C07.Proofs_Ledger C07.Proofs_View
-  C07.Proofs_Alloc C07.Proofs_Allocate C07.Proofs_State C07.Proofs_Inv.
+  C07.Proofs_Alloc C07.Proofs_Allocate C07.Proofs_State C07.Proofs_Inv C07.Proofs_Preempt.
 Import ListNotations.
 Open Scope Z_scope.
 
@@ -155,13 +155,46 @@ Proof.
       destruct t as [|t]; auto. rewrite (Gn ltac:(discriminate)). apply opt_eqb_refl.
 Qed.
 
+(* ------------------------------------------------------------------ live pods vs allocate set *)
+Lemma cons_consb rec t a : cons rec t a -> consb rec t a = true.
+Proof.
+  intros C. unfold consb. apply andb_true_intro. split; apply forallb_forall.
+  - intros [p x] _. cbn [fst]. specialize (C p).
+    destruct (lookup p rec) as [[da b]|]; auto.
+    destruct (allocs_of da t) as [|a0 al]; [now rewrite C|].
+    rewrite C. apply devres_eqb_refl.
+  - intros [q d] Hin. cbn [fst]. specialize (C q).
+    assert (M : aset_mem q a = true).
+    { apply aset_mem_In. apply in_map_iff. now exists (q, d). }
+    destruct (lookup q rec) as [[da b]|]; [|congruence].
+    destruct (allocs_of da t); [congruence|reflexivity].
+Qed.
+
+Lemma step_rec s o : envrec (fst (step s o)) = next_rec (envrec s) o (snd (step s o)).
+Proof.
+  unfold next_rec. destruct o as [inv|p rq|p|p|p|p al| |p al|p|p rq vs]; cbn [step].
+  - reflexivity.
+  - destruct (lookup p (envrec s)) as [x|] eqn:L; [reflexivity|].
+    destruct (allocate (ledgers s) (infos s) rq) as [|code|da] eqn:A; try reflexivity.
+    destruct (allocate_fail_codes _ _ _ _ A) as [-> | [-> | ->]]; reflexivity.
+  - destruct (lookup p (envrec s)) as [[da [|]]|] eqn:L; reflexivity.
+  - destruct (lookup p (envrec s)) as [[da b]|] eqn:L; reflexivity.
+  - destruct (lookup p (envrec s)) as [[da b]|] eqn:L; reflexivity.
+  - destruct (lookup p (envrec s)) as [x|] eqn:L; reflexivity.
+  - reflexivity.
+  - destruct (lookup p (envrec s)) as [[old b]|] eqn:L; reflexivity.
+  - destruct (lookup p (envrec s)) as [[da b]|] eqn:L; reflexivity.
+  - cbn [fst snd o_code out_code]. now destruct (negb _).
+Qed.
+
 (* ------------------------------------------------------------------ synchronisation of the checker's tracking *)
 Record sync (s : state) (k : track) : Prop := mkSync {
   sy_prev : k_prev k = ledgers s;
   sy_infos : k_infos k = infos s;
   sy_u : ugood s;
   sy_w : k_wf k = true -> wgood s;
-  sy_inv : k_wf k && k_env k = true -> inv_ok (ledgers s)
+  sy_inv : k_wf k && k_env k = true -> inv_ok (ledgers s);
+  sy_rec : k_rec k = envrec s
 }.
 
 Lemma init_sync : sync init_state init_track.
@@ -273,7 +306,7 @@ Proof.
     apply (sy_inv _ _ Sy). now rewrite Hw, He. }
   split.
   - unfold check_step. apply first_nz_zero. intros c Hc.
-    destruct Hc as [<-|[<-|[<-|[<-|[<-|[]]]]]].
+    destruct Hc as [<-|[<-|[<-|[<-|[<-|[<-|[]]]]]]].
     + apply chk_zero. destruct (k_wf k && op_wf o) eqn:Hw; auto. cbn [negb orb].
       apply forallb_forall. intros t _. apply free_eqb_complete. apply lgood_free_eq.
       apply (good_lgood _ t U' (Wf' eq_refl)).
@@ -283,12 +316,18 @@ Proof.
     + apply chk_zero. destruct (k_wf k && op_wf o) eqn:Hw; auto. cbn [andb].
       destruct (k_env k && (negb (is_env_op o) || inv_okb (ledgers (fst (step s o))))) eqn:He; auto.
     + destruct (k_wf k && op_wf o) eqn:Hw; auto. destruct o; auto.
-      apply andb_prop in Hw as [Hw Ho]. apply check_schedule_ok; auto. now apply Sy.
+      * apply andb_prop in Hw as [Hw Ho]. apply check_schedule_ok; auto. now apply Sy.
+      * apply andb_prop in Hw as [Hw Ho]. cbn [step snd].
+        apply check_preempt_model; [apply Sy|apply Sy|].
+        intros t. apply good_lgood; [exact U|now apply Sy].
     + apply chk_zero. destruct (is_frame o (o_code (snd (step s o)))) eqn:F; auto. cbn [negb orb].
       rewrite (sy_prev _ _ Sy). apply ledgers_eqb_same. now apply step_frame.
-  - constructor; cbn [next_track k_prev k_infos k_wf k_env]; auto.
+    + apply chk_zero. apply forallb_forall. intros t Ht. assert (t < 3)%nat by (cbn in Ht; lia).
+      rewrite (sy_rec _ _ Sy), <- step_rec. apply cons_consb. now apply U'.
+  - constructor; cbn [next_track k_prev k_infos k_wf k_env k_rec]; auto.
     + rewrite step_infos, (sy_infos _ _ Sy). reflexivity.
     + intros H. apply inv_okb_spec. apply andb_prop in H as [H1 H2]. now apply Inv'.
+    + rewrite (sy_rec _ _ Sy). symmetry. apply step_rec.
 Qed.
 
 Theorem prop_from_run s k ops : sync s k -> prop_from k ops (run_from s ops) = 0.
